@@ -38,7 +38,7 @@ func TestVerifC31Cas(t *testing.T) {
 			cases = append(cases, tc{to, iv, 0, true, true})
 		}
 	}
-	reps := vfScale(2, 30)
+	reps := vfScale(2, 150)
 	var mu sync.Mutex
 	var allOps, allImpl [][]string
 	for rp := 0; rp < reps; rp++ {
